@@ -84,6 +84,11 @@ TIE_SEARCH = {
     "try_statement_no_clause": ("TieStatements", "try_statement"),
     "break_statement_skeleton": ("TieStatements", "break_statement"), "continue_statement_skeleton": ("TieStatements", "continue_statement"),
     "while_statement_skeleton": ("TieStatements", "while_statement"), "if_statement_skeleton": ("TieStatements", "if_statement"),
+    "binary_operator_table": ("TieStatements", "binary"), "unary_operator_table": ("TieStatements", "unary"), "and_skeleton": ("TieStatements", "and"),
+    "or_skeleton": ("TieStatements", "or"), "dotdot_skeleton": ("TieStatements", "dotdot"), "var_declaration_skeleton": ("TieStatements", "var_declaration"),
+    "expression_statement_skeleton": ("TieStatements", "expression_statement"), "end_scope_skeleton": ("TieStatements", "end_scope"),
+    "begin_scope_skeleton": ("TieStatements", "begin_scope"), "define_variable_skeleton": ("TieStatements", "define_variable"),
+    "for_statement_skeleton": ("TieStatements", "for_statement"), "for_statement_needs_a_name": ("TieStatements", "for_statement"),
     "vm_unwind_contract": ("TieHandlers", "vm_unwind_stack"), "vm_unwind_uncaught": ("TieHandlers", "vm_unwind_stack"),
     "vm_push_handler_effect": ("TieHandlers", "fiber_push_exc_handler"), "vm_pop_handler_effect": ("TieHandlers", "vm_pop_exc_handler_impl"),
     "vm_jump_finally_effect": ("TieHandlers", "vm_jump_finally_impl"), "vm_end_finally_pending_return": ("TieHandlers", "vm_end_finally_impl"),
